@@ -153,7 +153,8 @@ impl ActTask for Act {
                     return Ok(true);
                 }
 
-                if t.state().is_success() {
+                // a child that is submitted or removed is finished as well
+                if t.state().is_completed() {
                     count += 1;
                 }
             }
